@@ -1,3 +1,373 @@
-//! verif harness entry for sequencer_mempool (compiled into the repo crate under cfg(all(test, feature = "verif"))).
-#[test]
-fn smoke() {}
+//! S->I replay harness for spec/Mempool.tla, compiled into `astria_sequencer::mempool`.
+//!
+//! VERIF_IN: one behaviour per line:
+//!   {"parked_total": n, "steps": [{"a": <operation as printed by TLC>, "t": <expected state after it>}, ...]}
+//! Every step is executed on the real `Mempool` (real signed `CheckedTransaction`s; costs handed to `insert`
+//! explicitly; `run_maintenance` against a real state delta carrying the chain nonce, balance and transfer fee; expiry
+//! with tokio's paused clock) and the complete internal state (pending / parked queues with costs, contained set,
+//! removal cache) is compared with the specification's after every step, together with the public observers
+//! (`transaction_status`, `builder_queue`, `pending_nonce`, `len`).
+#![allow(clippy::all, clippy::pedantic, dead_code, unused_imports)]
+use std::{
+    collections::{
+        BTreeMap,
+        HashMap,
+    },
+    sync::Arc,
+};
+
+use astria_core::{
+    crypto::SigningKey,
+    primitive::v1::{
+        asset::IbcPrefixed,
+        TransactionId,
+    },
+    protocol::{
+        fees::v1::FeeComponents,
+        transaction::v1::{
+            action::Transfer,
+            TransactionBody,
+        },
+    },
+    Protobuf as _,
+};
+use bytes::Bytes;
+use cnidarium::StateDelta;
+use prost::Message as _;
+use serde_json::{
+    json,
+    Value,
+};
+use tendermint::abci::types::ExecTxResult;
+
+use super::{
+    transactions_container::{
+        TransactionsContainer as _,
+        TransactionsForAccount as _,
+    },
+    Mempool,
+    RemovalReason,
+    TransactionStatus,
+};
+use crate::{
+    accounts::StateWriteExt as _,
+    checked_transaction::CheckedTransaction,
+    fees::StateWriteExt as _,
+    test_utils::{
+        astria_address,
+        nria,
+        Fixture,
+    },
+};
+
+#[path = "/verif/harness/common/io.rs"]
+mod io;
+
+fn key(a: u64) -> SigningKey {
+    let mut seed = [0x3cu8; 32];
+    seed[0] = a as u8;
+    seed[31] = 0x99;
+    SigningKey::from(seed)
+}
+
+fn addr_bytes(a: u64) -> [u8; 20] {
+    *key(a).verification_key().address_bytes()
+}
+
+fn asset() -> IbcPrefixed {
+    nria().to_ibc_prefixed()
+}
+
+/// id in the specification: [a, n, v, c]
+#[derive(Clone, Copy, PartialEq, Eq, Hash, PartialOrd, Ord, Debug)]
+struct Id {
+    a: u64,
+    n: u64,
+    v: u64,
+    c: u64,
+}
+
+impl Id {
+    fn of(v: &Value) -> Self {
+        Id {
+            a: v["a"].as_u64().unwrap(),
+            n: v["n"].as_u64().unwrap(),
+            v: v["v"].as_u64().unwrap(),
+            c: v["c"].as_u64().unwrap(),
+        }
+    }
+
+    fn json(&self) -> Value {
+        json!({"a": self.a, "n": self.n, "v": self.v, "c": self.c})
+    }
+}
+
+struct Run {
+    fixture: Fixture,
+    mempool: Mempool,
+    txs: HashMap<Id, Arc<CheckedTransaction>>,
+    ids: HashMap<TransactionId, Id>,
+}
+
+impl Run {
+    async fn tx(&mut self, id: Id) -> Arc<CheckedTransaction> {
+        if let Some(t) = self.txs.get(&id) {
+            return t.clone();
+        }
+        // the variant picks the recipient, the cost class the amount: distinct ids, cost = amount + transfer fee
+        let body = TransactionBody::builder()
+            .actions(vec![Transfer {
+                to: astria_address(&[0x40 + id.v as u8; 20]),
+                amount: u128::from(id.c),
+                asset: nria().into(),
+                fee_asset: nria().into(),
+            }
+            .into()])
+            .chain_id("test")
+            .nonce(id.n as u32)
+            .try_build()
+            .unwrap();
+        let bytes = Bytes::from(body.sign(&key(id.a)).into_raw().encode_to_vec());
+        let tx = Arc::new(CheckedTransaction::new(bytes, self.fixture.state()).await.expect("constructible at nonce 0"));
+        self.ids.insert(*tx.id(), id);
+        self.txs.insert(id, tx.clone());
+        tx
+    }
+
+    /// the complete internal state in the specification's shape
+    async fn project(&self, accts: &[u64]) -> Value {
+        let inner = self.mempool.inner.read().await;
+        let big: HashMap<IbcPrefixed, u128> = [(asset(), u128::MAX)].into_iter().collect();
+        let mut pending = vec![];
+        let mut parked = vec![];
+        for a in accts {
+            let ab = addr_bytes(*a);
+            let mut q = vec![];
+            if let Some(acct) = inner.pending.txs().get(&ab) {
+                for (n, ttx) in acct.txs() {
+                    let id = self.ids.get(ttx.id()).copied();
+                    let mut b = big.clone();
+                    let _ = ttx.deduct_costs(&mut b);
+                    let cost = (u128::MAX - b[&asset()]) as u64;
+                    q.push(match id {
+                        Some(id) => json!({"n": n, "v": id.v, "c": id.c, "cost": cost}),
+                        None => json!({"n": n, "unknown": true}),
+                    });
+                }
+            }
+            pending.push(Value::Array(q));
+            let mut q = vec![];
+            if let Some(acct) = inner.parked.txs().get(&ab) {
+                for (n, ttx) in acct.txs() {
+                    let id = self.ids.get(ttx.id()).copied();
+                    let mut b = big.clone();
+                    let _ = ttx.deduct_costs(&mut b);
+                    let cost = (u128::MAX - b[&asset()]) as u64;
+                    q.push(match id {
+                        Some(id) => json!({"n": n, "v": id.v, "c": id.c, "cost": cost}),
+                        None => json!({"n": n, "unknown": true}),
+                    });
+                }
+            }
+            parked.push(Value::Array(q));
+        }
+        let mut contained: Vec<Id> = inner.contained_txs.iter().filter_map(|t| self.ids.get(t).copied()).collect();
+        contained.sort();
+        let unknown_contained = inner.contained_txs.iter().filter(|t| !self.ids.contains_key(*t)).count();
+        let mut removed: Vec<(Id, String)> = inner
+            .comet_bft_removal_cache
+            .cache
+            .iter()
+            .filter_map(|(t, r)| {
+                let name = match r {
+                    RemovalReason::Expired => "Expired",
+                    RemovalReason::NonceStale => "NonceStale",
+                    RemovalReason::LowerNonceInvalidated => "LowerNonceInvalidated",
+                    RemovalReason::FailedExecution(_) => "FailedExecution",
+                    RemovalReason::InternalError => "InternalError",
+                    RemovalReason::IncludedInBlock {
+                        ..
+                    } => "IncludedInBlock",
+                };
+                self.ids.get(t).map(|id| (*id, name.to_string()))
+            })
+            .collect();
+        removed.sort();
+        json!({
+            "pending": pending,
+            "parked": parked,
+            "contained": contained.iter().map(Id::json).collect::<Vec<_>>(),
+            "removed": removed.iter().map(|(id, r)| json!({"id": id.json(), "r": r})).collect::<Vec<_>>(),
+            "unknown_contained": unknown_contained,
+        })
+    }
+}
+
+fn sort_queue(q: &Value) -> Value {
+    let mut v: Vec<Value> = q.as_array().unwrap().clone();
+    v.sort_by_key(|x| x["n"].as_u64().unwrap());
+    Value::Array(v)
+}
+
+fn expected_state(t: &Value) -> Value {
+    let st = &t["st"];
+    let mut contained: Vec<Id> = st["contained"].as_array().unwrap().iter().map(Id::of).collect();
+    contained.sort();
+    let mut removed: Vec<(Id, String)> = st["removed"]
+        .as_array()
+        .unwrap()
+        .iter()
+        .map(|x| (Id::of(&x["id"]), x["r"].as_str().unwrap().to_string()))
+        .collect();
+    removed.sort();
+    json!({
+        "pending": st["pending"].as_array().unwrap().iter().map(sort_queue).collect::<Vec<_>>(),
+        "parked": st["parked"].as_array().unwrap().iter().map(sort_queue).collect::<Vec<_>>(),
+        "contained": contained.iter().map(Id::json).collect::<Vec<_>>(),
+        "removed": removed.iter().map(|(id, r)| json!({"id": id.json(), "r": r})).collect::<Vec<_>>(),
+        "unknown_contained": 0,
+    })
+}
+
+async fn run_behaviour(fixture: Fixture, c: &Value) -> (Fixture, usize, Vec<Value>) {
+    let accts: Vec<u64> = c["accts"].as_array().unwrap().iter().map(|x| x.as_u64().unwrap()).collect();
+    let mempool = Mempool::new(fixture.metrics(), c["parked_total"].as_u64().unwrap() as usize, 100);
+    let mut run = Run {
+        fixture,
+        mempool,
+        txs: HashMap::new(),
+        ids: HashMap::new(),
+    };
+    let mut mism = vec![];
+    let steps = c["steps"].as_array().unwrap();
+    for (k, st) in steps.iter().enumerate() {
+        let a = &st["a"];
+        let op = a["op"].as_str().unwrap();
+        match op {
+            "insert" => {
+                let id = Id::of(&a["id"]);
+                let tx = run.tx(id).await;
+                let balances: HashMap<IbcPrefixed, u128> =
+                    [(asset(), u128::from(a["bal"].as_u64().unwrap()))].into_iter().collect();
+                let costs: HashMap<IbcPrefixed, u128> =
+                    [(asset(), u128::from(a["cost"].as_u64().unwrap()))].into_iter().collect();
+                let r = run.mempool.insert(tx, a["cn"].as_u64().unwrap() as u32, &balances, costs).await;
+                let observed = match r {
+                    Ok(super::InsertionStatus::AddedToPending) => "AddedToPending".to_string(),
+                    Ok(super::InsertionStatus::AddedToParked) => "AddedToParked".to_string(),
+                    Err(e) => format!("{e:?}"),
+                };
+                let expected = a["out"].as_str().unwrap();
+                if observed != expected {
+                    mism.push(json!({"sig": format!("mempool:insert:outcome:expected={expected}:observed={observed}"),
+                                     "detail": {"step": k, "op": a}}));
+                    break;
+                }
+            }
+            "remove_invalid" => {
+                let tx = run.tx(Id::of(&a["id"])).await;
+                run.mempool.remove_tx_invalid(tx, RemovalReason::FailedExecution("verif".to_string())).await;
+            }
+            "age" => {
+                tokio::time::advance(std::time::Duration::from_secs(241)).await;
+            }
+            "maintain" => {
+                let mut state = StateDelta::new(run.fixture.storage().latest_snapshot());
+                for (i, acct) in accts.iter().enumerate() {
+                    // TLC prints a function over Accts = {1..k} as an array
+                    let cn = a["cn"][i].as_u64().unwrap();
+                    let bal = a["bal"][i].as_u64().unwrap();
+                    state.put_account_nonce(&addr_bytes(*acct), cn as u32).unwrap();
+                    state.put_account_balance(&addr_bytes(*acct), &nria(), u128::from(bal)).unwrap();
+                }
+                state
+                    .put_fees(FeeComponents::<Transfer>::new(u128::from(a["fee"].as_u64().unwrap()), 0))
+                    .unwrap();
+                let mut results = HashMap::new();
+                for idv in a["incl"].as_array().unwrap() {
+                    let tx = run.tx(Id::of(idv)).await;
+                    results.insert(*tx.id(), Arc::new(ExecTxResult::default()));
+                }
+                run.mempool.run_maintenance(&state, a["recost"].as_bool().unwrap(), results, 7).await;
+            }
+            other => panic!("unknown op {other}"),
+        }
+        let got = run.project(&accts).await;
+        let want = expected_state(&st["t"]);
+        if got != want {
+            mism.push(json!({"sig": format!("mempool:{op}:state-differs"),
+                             "detail": {"step": k, "op": a, "expected": want, "observed": got}}));
+            break;
+        }
+        // ---- the public observers must tell the same story
+        for (id, tx) in &run.txs {
+            let status = match run.mempool.transaction_status(tx.id()).await {
+                Some(TransactionStatus::Pending) => "pending",
+                Some(TransactionStatus::Parked) => "parked",
+                Some(TransactionStatus::Removed(_)) => "removed",
+                None => "none",
+            };
+            let ai = accts.iter().position(|x| *x == id.a).unwrap();
+            let in_q = |q: &Value| {
+                q[ai].as_array().unwrap().iter().any(|x| x["n"] == id.n && x["v"] == id.v && x["c"] == id.c)
+            };
+            let model = if in_q(&want["pending"]) {
+                "pending"
+            } else if in_q(&want["parked"]) {
+                "parked"
+            } else if want["removed"].as_array().unwrap().iter().any(|x| x["id"] == id.json()) {
+                "removed"
+            } else {
+                "none"
+            };
+            if status != model {
+                mism.push(json!({"sig": format!("mempool:{op}:transaction_status:expected={model}:observed={status}"),
+                                 "detail": {"step": k, "id": id.json()}}));
+            }
+        }
+        let queue = run.mempool.builder_queue().await;
+        let mut seen: HashMap<u64, u64> = HashMap::new();
+        let mut count = 0usize;
+        for tx in &queue {
+            let id = run.ids[tx.id()];
+            if let Some(prev) = seen.get(&id.a) {
+                if id.n <= *prev {
+                    mism.push(json!({"sig": format!("mempool:{op}:builder-queue-nonce-order"), "detail": {"step": k}}));
+                }
+            }
+            seen.insert(id.a, id.n);
+            count += 1;
+        }
+        let pending_total: usize = want["pending"].as_array().unwrap().iter().map(|q| q.as_array().unwrap().len()).sum();
+        if count != pending_total {
+            mism.push(json!({"sig": format!("mempool:{op}:builder-queue-size"), "detail": {"step": k, "queue": count, "pending": pending_total}}));
+        }
+        if run.mempool.len().await != want["contained"].as_array().unwrap().len() {
+            mism.push(json!({"sig": format!("mempool:{op}:len"), "detail": {"step": k}}));
+        }
+        for (i, acct) in accts.iter().enumerate() {
+            let top = want["pending"][i].as_array().unwrap().iter().map(|x| x["n"].as_u64().unwrap()).max();
+            let got = run.mempool.pending_nonce(&addr_bytes(*acct)).await.map(u64::from);
+            if got != top.map(|n| n + 1) {
+                mism.push(json!({"sig": format!("mempool:{op}:pending_nonce"), "detail": {"step": k, "acct": acct}}));
+            }
+        }
+        if !mism.is_empty() {
+            break;
+        }
+    }
+    (run.fixture, steps.len(), mism)
+}
+
+#[tokio::test(start_paused = true)]
+async fn replay() {
+    let cases = io::read_cases();
+    let mut out = io::Writer::open();
+    // one chain state for the whole process (it is only read); a fresh mempool per behaviour
+    let mut fixture = Fixture::default_initialized().await;
+    for (k, c) in cases.iter().enumerate() {
+        let (f, steps, mism) = run_behaviour(fixture, c).await;
+        fixture = f;
+        out.put(&json!({"case": k, "steps": steps, "mismatches": mism}));
+    }
+}
